@@ -169,6 +169,35 @@ func main() {
 				}
 			}
 		}
+		// thorough: pairs of wire-adjacent fields varied together (offset / width interplay)
+		if r.Thorough() {
+			lay := mt.Def.Layout()
+			pv := func(f ref.FieldDef) []uint64 {
+				if f.Type == "char" {
+					return nil
+				}
+				b := gm.Boundary(f.Type)
+				if len(b) > 5 {
+					b = []uint64{b[1], b[2], b[3], b[6], b[len(b)-1]}
+				}
+				return b
+			}
+			for li := 0; li+1 < len(lay); li++ {
+				f1, f2 := lay[li], lay[li+1]
+				v1s, v2s := pv(f1), pv(f2)
+				for _, v2 := range []bool{false, true} {
+					base := gm.BaseVals(mt.Def, 0)
+					for _, a := range v1s {
+						for _, b := range v2s {
+							v := ref.CloneVals(base)
+							v[f1.Index].Bits[len(v[f1.Index].Bits)-1] = a
+							v[f2.Index].Bits[0] = b
+							run(v, v2, fmt.Sprintf("pair %s=%x %s=%x", f1.Name, a, f2.Name, b))
+						}
+					}
+				}
+			}
+		}
 		distinct.AddString(mt.Name())
 		if i%600 == 0 {
 			r.Sample(map[string]any{"type": mt.Name(), "crc_extra": mt.Def.CRCExtra(), "layout": layoutNames(mt.Def)})
